@@ -40,6 +40,12 @@
 (* the inner call; both are the named deviations                           *)
 (*   D-C21-sync-write-overtakes-queued  (key-scoped synchronous writes)    *)
 (*   D-C21-versioning-race              (PutBucketVersioningConfiguration) *)
+(*                                                                         *)
+(* History variables: accepted (every acknowledged write in acceptance     *)
+(* order: commit of the enqueue transaction / of the write-through call),  *)
+(* virt (= the fold of accepted, kept incrementally).  A replay that fails *)
+(* (an accepted entry the inner storage rejects) releases the claim and is *)
+(* retried for ever, as in the code: such a queue never drains.            *)
 (***************************************************************************)
 EXTENDS Pithos, Integers
 
